@@ -160,6 +160,7 @@ def near(obs, exp, scale, rtol, atol=0.0):
 
 
 def selftest():
+    selftest_center()
     rng = np.random.default_rng(7)
     # hand case: 3x3 box at (ixmin=-1, iymin=2) on a 4x3 frame (ny=4, nx=3)
     m = np.arange(1, 10, dtype=float).reshape(3, 3) / 10
@@ -208,3 +209,69 @@ def selftest():
     assert near(1.0 + 1e-12, 1.0, 1.0, 1e-10)[0] and not near(1.0 + 1e-8, 1.0, 1.0, 1e-10)[0]
     assert near(float('nan'), float('nan'), 0, 0)[0] and not near(0.0, float('nan'), 0, 0)[0]
     assert near(float('inf'), float('inf'), 0, 0)[0] and not near(float('-inf'), float('inf'), 0, 0)[0]
+
+
+# ----------------------------------------------------------------------
+# centre-in-shape test (method='center'): own geometry, float-radian theta
+# ----------------------------------------------------------------------
+def _margin(shape, p, theta, dx, dy):
+    """signed margin (pixels, > 0 strictly inside) of points (dx, dy) relative to the shape centre"""
+    c, s = math.cos(theta), math.sin(theta)
+    u = dx * c + dy * s
+    v = -dx * s + dy * c
+    if shape == 'circle':
+        return p[0] - np.hypot(dx, dy)
+    if shape == 'ellipse':
+        a, b = p
+        return (1.0 - np.sqrt((u / a) ** 2 + (v / b) ** 2)) * min(a, b)
+    w, h = p
+    return np.minimum(w / 2.0 - np.abs(u), h / 2.0 - np.abs(v))
+
+
+def center_weight_band(kind, p, theta, cx, cy, box, eps=1e-9):
+    """(lo, hi) boolean box-shaped arrays: pixel centre certainly inside / possibly inside the aperture.
+    `p` holds float lengths (r | r_in,r_out | a,b | a_in,a_out,b_in,b_out | w,h | w_in,w_out,h_in,h_out),
+    `theta` is a float in radians. A 'center' mask must be 1 where lo, 0 where not hi."""
+    ixmin, ixmax, iymin, iymax = box
+    xs = np.arange(ixmin, ixmax, dtype=float) - cx
+    ys = np.arange(iymin, iymax, dtype=float) - cy
+    dx, dy = np.meshgrid(xs, ys)
+    if kind == 'circle':
+        m = _margin('circle', (p['r'],), 0.0, dx, dy)
+        return m > eps, m > -eps
+    if kind == 'ellipse':
+        m = _margin('ellipse', (p['a'], p['b']), theta, dx, dy)
+        return m > eps, m > -eps
+    if kind == 'rect':
+        m = _margin('rect', (p['w'], p['h']), theta, dx, dy)
+        return m > eps, m > -eps
+    if kind == 'circ_annulus':
+        mo = _margin('circle', (p['r_out'],), 0.0, dx, dy)
+        mi = _margin('circle', (p['r_in'],), 0.0, dx, dy)
+    elif kind == 'ell_annulus':
+        mo = _margin('ellipse', (p['a_out'], p['b_out']), theta, dx, dy)
+        mi = _margin('ellipse', (p['a_in'], p['b_in']), theta, dx, dy)
+    else:
+        mo = _margin('rect', (p['w_out'], p['h_out']), theta, dx, dy)
+        mi = _margin('rect', (p['w_in'], p['h_in']), theta, dx, dy)
+    return (mo > eps) & ~(mi > -eps), (mo > -eps) & ~(mi > eps)
+
+
+def selftest_center():
+    lo, hi = center_weight_band('circle', {'r': 1.5}, 0.0, 2.0, 2.0, (0, 5, 0, 5))
+    exp = np.zeros((5, 5), bool)
+    exp[1:4, 1:4] = True                       # the 3x3 block: corners at distance sqrt(2) < 1.5
+    assert np.array_equal(lo, exp) and np.array_equal(hi, exp), lo
+    # rectangle 4 x 2 rotated by 90 deg -> 2 wide, 4 high: centres strictly inside |dx|<1, |dy|<2
+    lo, hi = center_weight_band('rect', {'w': 4.0, 'h': 2.0}, math.pi / 2, 2.0, 2.0, (0, 5, 0, 5))
+    exp = np.zeros((5, 5), bool)
+    exp[1:4, 2] = True
+    assert np.array_equal(lo, exp), lo
+    assert hi.sum() > lo.sum()                 # the ties |dx| = 1, |dy| = 2 are in the band
+    # ellipse a=2.2, b=0.6 at 0 rad: row of 5 centres; at 90 deg: column
+    lo, _ = center_weight_band('ellipse', {'a': 2.2, 'b': 0.6}, 0.0, 2.0, 2.0, (0, 5, 0, 5))
+    assert lo.sum() == 5 and lo[2].all()
+    lo, _ = center_weight_band('ellipse', {'a': 2.2, 'b': 0.6}, math.radians(90), 2.0, 2.0, (0, 5, 0, 5))
+    assert lo.sum() == 5 and lo[:, 2].all()
+    lo, _ = center_weight_band('circ_annulus', {'r_in': 0.5, 'r_out': 1.2}, 0.0, 2.0, 2.0, (0, 5, 0, 5))
+    assert lo.sum() == 4 and not lo[2, 2]
